@@ -79,7 +79,7 @@ META["C05"] = {
 META["C06"] = {
     "category": "proof",
     "design_ref": "DESIGN.md section 5 / C06",
-    "technique": "Lean 4: four monitor/judgement theorems over the transcribed inbox path, for every request, configuration and application answer — (1) nothing is read/written/fetched/called before Blocked is asked and it is asked about exactly ToId of every actor; (2) the origin check is call-free and passes only same-host activities, and a failing one makes Update/Delete do nothing; (3) the Accept handler updates a collection only after Get returned a Follow with this actor among its actors and every accepting actor among its objects; (4) the Undo callback is reached only after every undone activity was fetched and its actors found among the Undo's. The same predicates and monitors are run by the driver over the real code's traces (trace replay).",
+    "technique": "Lean 4: four monitor/judgement theorems over the transcribed inbox path, for every request, configuration and application answer — (1) nothing is read/written/fetched/called before Blocked is asked and it is asked about exactly ToId of every actor; (2) the origin check is call-free and passes only same-host activities, a failing one makes Update/Delete do nothing, and a passing one lets Update write only the activity's own embedded objects and Delete remove only the ids of its objects, creating nothing (fedUpdate_writes, fedDelete_writes); (3) the Accept handler updates a collection only after Get returned a Follow with this actor among its actors and every accepting actor among its objects; (4) the Undo callback is reached only after every undone activity was fetched and its actors found among the Undo's. The same predicates and monitors are run by the driver over the real code's traces (trace replay).",
     "text": "Proved for all inputs and environments on the model; the correspondence harness replays the real code call-for-call against the model on host/actor/Follow-graph variants and runs the very monitors the theorems are about over the implementation's own traces.",
     "note": "Trusted: Lean kernel, transcription (replay-validated). 'no stored object changes otherwise' is proved in the form 'no Update/Delete/Create call is made' for the origin check and 'no Update call' for Accept; F3 (Blocked was asked about the activity id for embedded actors) was a genuine defect, repaired in the repository (fix: commit) and recorded in known_findings.json.",
 }
